@@ -75,6 +75,9 @@ IMPORTS = {
         ('C17', ['C17.a', 'C17.f'],
          'the transaction list is an htp_list: when its ring buffer grows or wraps wrongly, position i no longer holds transaction i '
          '(c04-1, c04-9)'),
+        ('C06', ['C06.k'],
+         'response i+1 begins where the body of response i ends: a chunk-length line that is cut short at a chunk extension takes chunk data '
+         'from inside the line and the next response is swallowed into the body (c04-16)'),
         ('C09', ['C09.c'],
          'the DATA_OTHER hand-over the statement relies on: the stream state the driver stores and returns after a state function asked for the '
          'other direction (c04-15: the two DATA_OTHER arms merged, the request side never reports it)'),
@@ -145,8 +148,9 @@ IMPORTS = {
          'at the end of a chunk (c11-5)'),
         ('C02', ['C02.h', 'C02.i'],
          '"regardless of surrounding whitespace": the framing fields are looked up by a name and a value that were trimmed completely (c11-10)'),
-        ('C13', ['C13.b'],
-         'a request target whose port is outside 1..65535 is a syntactically invalid host: the port predicates mark everything else invalid, '
+        ('C13', ['C13.b', 'C13.i'],
+         'the host that is compared with the Host field is the host of the target: authority delimiters are searched inside the authority '
+         '(c11-16: an @ in the query moves the host). A request target whose port is outside 1..65535 is a syntactically invalid host: the port predicates mark everything else invalid, '
          'which is what raises the invalid-host indicator for the target (c11-14)'),
         ('C17', ['C17.c'],
          '"regardless of letter case": a repeated Content-Length or Transfer-Encoding is found by a lookup that folds case on every byte of '
